@@ -65,6 +65,20 @@ def blocks(tier, seed, prop='C01'):
             if tier == 'thorough' and r == 'R1':
                 out.append((f'D2/R9/exc/w{wi}', E.d2_cases('R9', 'ENST10', CFG_EXC, lo, hi, 9),
                             dict(deviations=2, window=[lo, hi])))
+    # LONG: indels of 4..8 nt (deletions) / 4..5 nt (insertions), alone and with a second variant 0..3 nt after the
+    # first retained base (where a frame-shifted branch rejoins the reference and the next bubble begins)
+    for r in ('R1', 'R3', 'R2'):
+        tx = MAIN_TX[r]
+        wins = windows(r, tx)
+        if tier == 'quick':
+            if r != 'R1':
+                continue
+            chosen = vlib.seeded_windows(seed, len(wins), 2, always=(1,))
+        else:
+            chosen = list(range(len(wins)))
+        for wi in chosen:
+            lo, hi = wins[wi]
+            out.append((f'LONG/{r}/none/w{wi}', E.longindel_cases(r, tx, CFG_NONE, lo, hi), dict(deviations=2, window=[lo, hi])))
     # MNV + one more record: two adjacent SNVs (merged to an MNV) and every third variant within 9 nt
     for r in ('R1', 'R3'):
         tx = MAIN_TX[r]
